@@ -293,7 +293,7 @@ impl Bench {
         }
         // output and input
         if is_trap && obs.fail.is_none() {
-            let actual = decode_out(&lacebox::strip_sgr(&ex.stdout));
+            let actual = decode_out(&ex.stdout); // NO_COLOR is set: nothing to strip, and the program may print ESC itself
             if let Err(at) = match_out(&io.out, &actual) {
                 obs.set_fail(
                     format!("C02:wrong-output:trap-x{:02x}", word & 0xFF),
